@@ -311,7 +311,7 @@ def save_rdtrajectory(so, path, separate_data=True) :
 
 
     d = {
-        "script" : rdscript_to_dict(so.script),
+        "script" : None if so.script is None else rdscript_to_dict(so.script),
         "system" : rdsystem_to_dict(so.system),
         "data" : {"value" : filepath.get_last_element(data_path), "units" : str(so.data.units)},
         "t_sample" : unitarray_to_dict(so.t),
@@ -345,7 +345,7 @@ def load_rdtrajectory(path) :
     f = open(path, "r", encoding="utf-8")
     d = json.load(f)
 
-    script = rdscript_from_dict(d["script"], base_path=filepath.get_base_path(path))
+    script = None if d.get("script", None) is None else rdscript_from_dict(d["script"], base_path=filepath.get_base_path(path))
     system = rdsystem_from_dict(d["system"], base_path=filepath.get_base_path(path))
     data = unitarray_from_dict(d["data"], base_path=filepath.get_base_path(path))
     t_sample = unitarray_from_dict(d["t_sample"])
